@@ -21,7 +21,7 @@ TEXT = {
  "C01": ("deterministic simulation: seeded histories of builder/compose calls over a shared, aliased object heap, executed sequentially, with asynchronous exceptions (BaseException and ordinary Exception) injected inside calls, by 2-4 scheduled actor threads (baton passing, sys.monitoring pre-emption, random-walk / PCT / stall / contention schedules), plus a complete crash-point sweep of one builder call per batch and a first pass replaying the stored histories of every repaired defect; oracle = refinement against the linear-rebuild value model, with ablation replay for attribution. Sampling, not proof.", "4 (C01)", "linear-rebuild reference shares library code on a private path; GIL-atomic C calls; the one permitted side effect (automatic alias of a shared un-aliased argument) is recorded and replayed into the model in the autoalias configuration, runs of other configurations in which it hits a shared object are discarded and counted", "seeded simulation of call histories, threads and injected exceptions vs linear-rebuild model"),
  "C02": ("deterministic simulation: seeded histories of read events (get_sql/str/parameterised/hash/==) by 1-4 scheduled actor threads over shared objects, with injected asynchronous exceptions, stalls, faulty leaves, and re-execution in fresh interpreters under other PYTHONHASHSEED values (a difference is attributed to the hash seed or to what the long-lived process executed before, with a minimised prelude as replay); oracle = every completed read equals the linear-rebuild value, reads leave no trace. Sampling, not proof.", "4 (C02)", "as C01; hash values are excluded from cross-process comparison; the harness never passes a set to the API", "seeded simulation of render histories, thread interleavings, faults and hash-seed restarts vs linear-rebuild model"),
  "C13": ("deterministic simulation of delivery order only: clause actors with FIFO call queues, seeded merges (random linear extensions plus adversarial orders); oracle = final observation equal under every merge, same-clause accumulation, and well-formedness riders on every prefix state (bracket/quote balance, clause-order tables, no comment opener, no alias inside predicates/keys/VALUES, sqlite3 prepare); 12 % of the runs apply the dialect-free riders to statements of the general-purpose generator instead (population mode, incl. sub-query text independent of the embedding position). No fault dimension exists for this property.", "4 (C13)", "clause-address table and per-dialect clause-order tables are the harness's; sqlite3 3.40 parser as ground truth for the SQLite rider", "seeded search over delivery orders of commuting builder calls with per-state invariants"),
- "C15": ("deterministic simulation: the C01 heap with duplication events (copy, deepcopy, pickle protocols 0-5, joint duplication, pickle + restart in a fresh interpreter with another hash seed) interleaved with builder calls on both sides; oracle = dup is the identity of the value model (under recorded automatic-alias effects: an independent rebuild of the original as of the dup's log position); bounded termination of every duplication. Sampling, not proof.", "4 (C15)", "as C01; cross-process comparison excludes hash values", "seeded simulation of duplication/restart histories vs linear-rebuild model"),
+ "C15": ("deterministic simulation: the C01 heap with duplication events (copy, deepcopy, pickle protocols 0-5, joint duplication, pickle + restart in a fresh interpreter with another hash seed) interleaved with builder calls on both sides; oracle = dup is the identity of the value model (under recorded automatic-alias effects: an independent rebuild of the original as of the dup's log position); bounded termination of every duplication; plus holder-mode histories (a mutable-mode sub-query embedded at one of 17 positions of a parent, the parent duplicated by deepcopy/pickle, the sub-query of one side changed in place; oracle = the untouched side renders as before). Sampling, not proof.", "4 (C15) and section 0 deviation 16", "as C01; cross-process comparison excludes hash values", "seeded simulation of duplication/restart histories vs linear-rebuild model"),
 }
 checks = []
 for p in claimed:
